@@ -128,31 +128,39 @@ class PathCtx:
         self.ex.solver.add(cond)
 
     def assume(self, cond):
+        d = len(self.decisions)
+        if d < len(self.prefix):
+            ent = self.prefix[d]
+            self.decisions.append(ent)
+            if ent[1]:
+                self._event(as_bool(cond))
+            return
         cond = simp(as_bool(cond))
         if cond is True:
+            self.decisions.append((-1, False))
             return
         if cond is False:
             raise PathEnd()
-        first = self.events >= self.keep
+        self.decisions.append((-1, True))
         self._event(cond)
-        if first and not self.ex.check():
+        if not self.ex.check():
             raise PathEnd()
 
     def choose(self, conds):
         """conds: list of python bools / z3 Bools covering all cases. Returns the index taken."""
+        d = len(self.decisions)
+        if d < len(self.prefix):
+            i, ev = self.prefix[d]
+            self.decisions.append((i, ev))
+            if ev:
+                self._event(as_bool(conds[i]))
+            return i
         cs = [simp(as_bool(c)) for c in conds]
         live = [i for i, c in enumerate(cs) if c is not False]
         definite = [i for i in live if cs[i] is True]
         if definite:
+            self.decisions.append((definite[0], False))
             return definite[0]
-        if len(live) == 1 and False:
-            return live[0]
-        d = len(self.decisions)
-        if d < len(self.prefix):
-            i = self.prefix[d]
-            self.decisions.append(i)
-            self._event(cs[i])
-            return i
         # new decision point: feasibility of each option
         feas = []
         for i in live:
@@ -163,16 +171,17 @@ class PathCtx:
         taken = feas[0]
         e = self.events
         for j in reversed(feas[1:]):
-            self.work.append((tuple(self.decisions) + (j,), e))
-        self.decisions.append(taken)
+            self.work.append((tuple(self.decisions) + ((j, True),), e))
+        self.decisions.append((taken, True))
         self._event(cs[taken])
         return taken
 
     def branch(self, cond):
-        cond = simp(as_bool(cond))
         if isinstance(cond, bool):
             return cond
-        return self.choose([cond, z3.Not(cond)]) == 0
+        if isinstance(cond, int):
+            return cond != 0
+        return self.choose([cond, z3.Not(as_bool(cond))]) == 0
 
     # -- queries that do not fork --------------------------------------------
     def feasible(self, cond):
